@@ -23,7 +23,7 @@ func TestReplay(t *testing.T) { pbt.Replay(t) }
 
 // ---- variants ------------------------------------------------------------------------------
 
-var variants = []string{"v12", "v12-psk", "v12-epsk", "v12-cbc", "v12-cid", "v12-cid8", "v12-cid20-ccm", "v12-resumed", "v13", "v13-nohv", "dual-12", "dual-srv-12", "dual-srv-13"}
+var variants = []string{"v12", "v12-psk", "v12-epsk", "v12-cbc", "v12-cid", "v12-cid8", "v12-cid20-ccm", "v12-resumed", "v13", "v13-nohv", "dual-12", "dual-srv-12", "dual-srv-13", "v12-srvstore"}
 
 var variantCID = map[string]int{"v12-cid": 4, "v12-cid8": 8, "v12-cid20-ccm": 20}
 
@@ -59,6 +59,8 @@ func epsFor(v string) (cl, sv scen.EP, resumed bool) {
 	case "dual-12":
 		cl.MinVer, cl.MaxVer = 12, 13
 		cl.Curves, sv.Curves = []uint16{0x1d}, []uint16{0x1d}
+	case "v12-srvstore": // a session store on the server only: it issues session ids the client has no store for
+		sv.Store = "ss-only"
 	case "dual-srv-12": // the server reads the first hello outside any state machine (version negotiation)
 		sv.MinVer, sv.MaxVer = 12, 13
 		cl.Curves, sv.Curves = []uint16{0x1d}, []uint16{0x1d}
@@ -742,8 +744,15 @@ func runFlood(c FloodCase, r *pbt.R) {
 	berr := pbt.Bubble(func() {
 		cEP, sEP, _ := epsFor(c.Variant)
 		env := scen.NewEnv()
+		env.Log = &scen.LogSink{Keep: os.Getenv("VERIF_DEBUG") != ""}
 		p := scen.NewPair(env, &cEP, &sEP)
 		defer p.Close()
+		defer func() {
+			if os.Getenv("VERIF_DEBUG") != "" {
+				fmt.Println(p.Dump())
+				fmt.Println(strings.Join(env.Log.Lines, "\n"))
+			}
+		}()
 		p.Net.MaxEvents = 200000
 		var before runtime.MemStats
 		runtime.GC()
@@ -799,6 +808,15 @@ func runFlood(c FloodCase, r *pbt.R) {
 						body = bytes.Repeat([]byte{0xab}, 8000)
 					}
 					d = legacyRecord(22, 0, uint64(i), append(hs, body...), 0) //nolint:gosec
+				case "empty-plaintext-ack":
+					// an unprotected ACK record with an empty list: no key needed, asks for nothing. (Low record
+					// sequence numbers: an epoch 0 record with a HIGH number moves the epoch 0 replay window past the
+					// genuine hellos - unauthenticated, parseable input, outside the letter of the property, see
+					// DESIGN 5.3 - here the forged record merely takes the number of one genuine transmission.)
+					d = legacyRecord(26, 0, ackSeq(c.During, i), []byte{0, 0}, 0)
+				case "plaintext-ack-of-nothing":
+					// ... and one that acknowledges record numbers nobody sent
+					d = legacyRecord(26, 0, ackSeq(c.During, i), append([]byte{0, 16}, bytes.Repeat([]byte{0, 0, 0, 0, 0, 0, 0, 0}, 2)...), 0)
 				case "tiny-future-fragments":
 					// one byte each, message sequences far ahead: the fragment COUNT limit, reached with 25-byte datagrams
 					seqNo := 1000 + i
@@ -856,7 +874,7 @@ func runFlood(c FloodCase, r *pbt.R) {
 
 			return
 		}
-		harmlessFlood := c.Kind == "garbage" || strings.HasPrefix(c.Kind, "future-epoch") || c.Kind == "ccs-current-epoch"
+		harmlessFlood := c.Kind == "garbage" || strings.HasPrefix(c.Kind, "future-epoch") || c.Kind == "ccs-current-epoch" || strings.Contains(c.Kind, "plaintext-ack")
 		// An established connection has no use for plaintext handshake fragments: whatever the flood parked in
 		// the reassembly buffer, protected application data must still get through (a connection that drops
 		// every record from then on is wedged). During the handshake the same fragments compete with the
@@ -883,6 +901,14 @@ func runFlood(c FloodCase, r *pbt.R) {
 	reportBubble(berr, r)
 }
 
+func ackSeq(during bool, i int) uint64 {
+	if during {
+		return uint64(i) //nolint:gosec
+	}
+
+	return uint64(3000 + i) //nolint:gosec
+}
+
 func enumFlood(tier string, yield func(FloodCase) bool) {
 	n := 2000
 	if tier == "thorough" {
@@ -897,7 +923,7 @@ func enumFlood(tier string, yield func(FloodCase) bool) {
 			}
 		}
 		// a single unauthenticated datagram
-		for _, k := range []string{"ccs-current-epoch", "future-epoch-ccs", "future-epoch-hs"} {
+		for _, k := range []string{"ccs-current-epoch", "future-epoch-ccs", "future-epoch-hs", "empty-plaintext-ack", "plaintext-ack-of-nothing"} {
 			for _, during := range []bool{true, false} {
 				if !yield(FloodCase{Variant: v, Kind: k, N: 1, During: during}) {
 					return
